@@ -219,7 +219,7 @@ def leaf_templates():
     pair("len:str-1", lambda nm: (lambda l: [length(l, "char", offset="-1"), field(nm(), "string", length=l)])(nm()))
     pair("len:estr", lambda nm: (lambda l: [length(l, "byte"), field(nm(), "encoded_string", length=l)])(nm()))
     pair("len:arr", lambda nm: (lambda l: [length(l, "char"), array(nm(), "char", length=l)])(nm()))
-    pair("len:arrP", lambda nm: (lambda l: [length(l, "short"), array(nm(), "P", length=l)])(nm()))
+    pair("len:arrP", lambda nm: (lambda l: [length(l, "char"), array(nm(), "P", length=l)])(nm()))
     pair("len:darrU", lambda nm: (lambda l: [length(l, "char"), array(nm(), "U", length=l, delimited="true")])(nm()))
     pair("len:darrU-nt", lambda nm: (lambda l: [length(l, "char"), array(nm(), "U", length=l, delimited="true", trailing_delimiter="false")])(nm()))
     t.append(_T("len:sep", 3, lambda nm: (lambda l: [length(l, "char"), field(nm(), "short"), field(nm(), "string", length=l)])(nm()), "length pairs"))
